@@ -274,6 +274,8 @@ type job struct {
 	timeout time.Duration // overrides the watchdog
 }
 
+const workerAddressSpaceKiB = 12 << 20 // 12 GiB
+
 func (j *job) watchdog() time.Duration {
 	if j.timeout > 0 {
 		return j.timeout
@@ -282,7 +284,18 @@ func (j *job) watchdog() time.Duration {
 }
 
 func (sc *scratch) exec(j *job) error {
-	cmd := exec.Command(sc.dir+"/bin/"+j.sub.Pkg+".test", "-test.run", "^TestSim$", "-test.count=1", "-test.timeout=0")
+	// every worker runs under an address-space limit: code that requests tens of gigabytes from a length prefix then
+	// fails at that call with the Go runtime's unrecoverable "out of memory" error, in the search and, identically, in
+	// the replay of that one run (instead of sixteen workers exhausting the machine together, which no replay of a
+	// single run reproduces)
+	limit := workerAddressSpaceKiB
+	if j.mode == "replay" || j.mode == "shrink" {
+		// one run alone gets half of it: a run that was the last straw for a
+		// worker that had not yet returned earlier giant blocks is then still recognised on its own
+		limit = workerAddressSpaceKiB / 2
+	}
+	cmd := exec.Command("/bin/sh", "-c", fmt.Sprintf("ulimit -v %d; exec \"$0\" \"$@\"", limit),
+		sc.dir+"/bin/"+j.sub.Pkg+".test", "-test.run", "^TestSim$", "-test.count=1", "-test.timeout=0")
 	cmd.Dir = sc.dir
 	env := append(os.Environ(),
 		"VERIF_HARNESS="+j.sub.Harness, "VERIF_CONFIG="+j.sub.Config, "VERIF_MODE="+j.mode,
@@ -316,19 +329,26 @@ func (sc *scratch) exec(j *job) error {
 // attributeAbort: a worker died with a Go runtime "fatal error" (not recoverable inside the process). The run in
 // progress is read from the worker's progress file and re-executed alone in a fresh process; if it aborts again the
 // abort belongs to that run (a violation with a seed/run replay file), otherwise it stays an infrastructure error.
-func (sc *scratch) attributeAbort(sub *Sub, j *job, werr error) *abort {
+// abortLine classifies the error of a worker process that did not finish: "" if it is not an abort of the process.
+func abortLine(werr error) string {
 	msg := werr.Error()
-	line := ""
 	if i := strings.Index(msg, "fatal error:"); i >= 0 {
-		line = msg[i:]
+		line := msg[i:]
 		if k := strings.IndexByte(line, '\n'); k >= 0 {
 			line = line[:k]
 		}
+		return line
 	} else if strings.HasPrefix(msg, "watchdog:") {
-		line = "stall: one run kept a worker busy beyond the watchdog"
+		return "stall: one run kept a worker busy beyond the watchdog"
 	} else if strings.HasPrefix(msg, "signal: killed") {
-		line = "killed: the worker was killed by the operating system (out of memory) during one run"
-	} else {
+		return "killed: the worker was killed by the operating system (out of memory) during one run"
+	}
+	return ""
+}
+
+func (sc *scratch) attributeAbort(sub *Sub, j *job, werr error) *abort {
+	line := abortLine(werr)
+	if line == "" {
 		return nil
 	}
 	b, err := os.ReadFile(j.out + ".progress")
@@ -345,8 +365,11 @@ func (sc *scratch) attributeAbort(sub *Sub, j *job, werr error) *abort {
 	out := path + ".out"
 	// a single run takes milliseconds; alone in a fresh process it gets 90 s
 	rj := &job{sub: sub, mode: "replay", replay: path, out: out, budget: 60 * time.Second, timeout: 90 * time.Second}
-	if err2 := sc.exec(rj); err2 != nil && (strings.Contains(err2.Error(), "fatal error:") || strings.HasPrefix(err2.Error(), "watchdog:") || strings.HasPrefix(err2.Error(), "signal: killed")) {
-		return &abort{seed: j.seed, run: run, message: line}
+	if err2 := sc.exec(rj); err2 != nil {
+		// (the message of the run alone names the abort: it is what a replay of the file will show again)
+		if line2 := abortLine(err2); line2 != "" {
+			return &abort{seed: j.seed, run: run, message: line2}
+		}
 	}
 	return nil
 }
@@ -435,8 +458,14 @@ func (sc *scratch) search(sub *Sub, seed uint64, workers int, budget time.Durati
 		}()
 	}
 	wg.Wait()
+	attributed := false
+	for _, ab := range aborts {
+		attributed = attributed || ab != nil
+	}
 	for _, e := range errs {
-		if e != nil {
+		// (when one worker's abort was reproduced by its run alone, that reproducible violation is what is reported, and
+		// other workers that died in a way no single run reproduces do not turn it into an infrastructure error)
+		if e != nil && !attributed {
 			sc.cleanup()
 			infra("worker of %s/%s: %v", sub.Pkg, sub.Harness, e)
 		}
@@ -798,6 +827,10 @@ func (sc *scratch) replayOnce(sub *Sub, path string) (string, []string) {
 	out := filepath.Join(sc.dir, "out", "replay-out.json")
 	j := &job{sub: sub, mode: "replay", replay: path, out: out, budget: 30 * time.Second}
 	if err := sc.exec(j); err != nil {
+		if line := abortLine(err); line != "" {
+			fmt.Println(tail(err.Error(), 3000))
+			return "process-abort|" + sanitizeSig(line), nil
+		}
 		return "error: " + err.Error(), nil
 	}
 	var res struct {
